@@ -100,6 +100,15 @@ CLAIMED = {
         "DESIGN.md 4 C16",
         "The clock is virtual: the module attribute progress_bar.time is rebound from outside (no source hook).",
     ),
+    "C20": (
+        "Hypothesis-generated source files and exceptions rendered by ExceptionTrace, validity predicates on the rendered text (message, numbering, marker, verbatim source lines against the generated source, ignore filter); corpus sweep of the highlighter",
+        "Exceptions raised from generated on-disk sources (filler from an adversarial line pool, CRLF, missing trailing newline), exec'd and "
+        "source-less code, cause chains and recursion, rendered at every verbosity, ANSI/plain, UTF-8 on/off, simple on/off: render returns, "
+        "class name and message lines present in order, snippet numbered consecutively with exactly the raising line marked and "
+        "single-line-token source lines verbatim, ignored frames hidden unless debug; highlighter over /repo/src and stdlib files at every 7th line.",
+        "DESIGN.md 4 C20",
+        "Generated sources live under /verif/.work/<tag>-<pid>/ and are removed at the end of the run.",
+    ),
     "C12": (
         "bounded-exhaustive operation sequences + Hypothesis op lists against a list-based reference model of the dispatcher",
         "All 11^5 (quick) / 11^7 (thorough) register/dispatch sequences, each with and without queries after every step, plus "
